@@ -9,8 +9,8 @@ theorem close_nstart {s s' : State} {nid t : Nat} {e : Bool} {v : Nat} (h : Clos
   unfold stepNstart at hs
   split at hs
   · simp at hs
-  · dsimp only at hs
-    split at hs <;> simp at hs <;> subst hs <;> close_close True.intro
+  · try dsimp only at hs
+    split at hs <;> simp at hs <;> subst hs <;> close_close0
 
 set_option maxHeartbeats 8000000 in
 theorem close_nrun {s s' : State} {nid : Nat} (h : Close s) (hi : Inv s) (hs : stepNrun s nid = some s') : Close s' := by
@@ -18,13 +18,13 @@ theorem close_nrun {s s' : State} {nid : Nat} (h : Close s) (hi : Inv s) (hs : s
   split at hs
   · simp at hs
   · split at hs
-    · simp at hs; subst hs; close_close True.intro
+    · simp at hs; subst hs; close_close0
     · split at hs
       · simp at hs
-      · split at hs <;> simp at hs <;> subst hs <;> close_close True.intro
+      · split at hs <;> simp at hs <;> subst hs <;> close_close0
     · split at hs
       · simp at hs
-      · split at hs <;> simp at hs <;> subst hs <;> close_close True.intro
+      · split at hs <;> simp at hs <;> subst hs <;> close_close0
     · simp at hs
 
 set_option maxHeartbeats 4000000 in
@@ -36,12 +36,28 @@ theorem close_nwrite {s s' : State} {nid : Nat} {o : Outcome} (h : Close s) (hi 
   · split at hs
     · split at hs
       · simp at hs
-      · simp at hs; subst hs; close_close True.intro
+      · simp at hs; subst hs; close_close0
     · simp at hs
 
 set_option maxHeartbeats 4000000 in
-theorem close_ack {s : State} {ids : List Nat} (h : Close s) (hi : Inv s) : Close (stepAck s ids) := by
-  constructor <;> simp [stepAck] <;> grind [Close, Inv]
+theorem close_ackOne {cfg : Cfg} (hg : cfg.std = true) (s : State) (id : Nat) (h : Close s ∧ Inv s) :
+    Close (ackOne cfg s id).1 ∧ Inv (ackOne cfg s id).1 := by
+  refine ⟨?_, inv_ackOne hg s id h.2⟩
+  obtain ⟨h, hi⟩ := h
+  unfold ackOne
+  by_cases hk : s.ack id = true
+  · simp only [hk, if_true]
+    cases hc : s.calls id with
+    | none => exact h
+    | some c =>
+      have hna := hi.ack_unacked id c hk hc
+      simp only [hna, Bool.false_eq_true, if_false]
+      close_close hg
+  · simp only [hk]; exact h
+
+theorem close_ack {cfg : Cfg} (hg : cfg.std = true) {s : State} {ids : List Nat} (h : Close s) (hi : Inv s) :
+    Close (stepAck cfg s ids) :=
+  (stepAck_induct cfg (P := fun t => Close t ∧ Inv t) (close_ackOne hg) ids s ⟨h, hi⟩).1
 
 set_option maxHeartbeats 4000000 in
 theorem close_cancel {s s' : State} {i : Nat} (h : Close s) (hi : Inv s) (hs : stepCancel s i = some s') : Close s' := by
@@ -49,14 +65,14 @@ theorem close_cancel {s s' : State} {i : Nat} (h : Close s) (hi : Inv s) (hs : s
   split at hs
   · simp at hs
   · split at hs <;> simp at hs <;> subst hs
-    · close_close True.intro
+    · close_close0
     · exact h
 
 set_option maxHeartbeats 4000000 in
 theorem close_advance {s : State} {d : Nat} (h : Close s) : Close (stepAdvance s d) := by
   constructor <;> simp [stepAdvance, Call.tickTimer] <;> grind [Close]
 
-theorem close_step {cfg : Cfg} {s s' : State} {a : Action} (hg : cfg.guard = true) (h : Close s) (hi : Inv s)
+theorem close_step {cfg : Cfg} {s s' : State} {a : Action} (hg : cfg.std = true) (h : Close s) (hi : Inv s)
     (hs : step cfg s a = some s') : Close s' := by
   cases a <;> simp only [step] at hs
   · exact close_start h hi hs
@@ -64,17 +80,18 @@ theorem close_step {cfg : Cfg} {s s' : State} {a : Action} (hg : cfg.guard = tru
   · exact close_loop hg h hi hs
   · exact close_wait hg h hi hs
   · exact close_dret hg h hi hs
-  · exact close_gpass h hi hs
+  · exact close_gpass hg h hi hs
   · exact close_nstart h hi hs
   · exact close_nrun h hi hs
   · exact close_nwrite h hi hs
-  · cases hs; exact close_ack h hi
+  · cases hs; exact close_ack hg h hi
   · exact close_cancel h hi hs
   · cases hs; exact close_advance h
-  · cases hs; constructor <;> simp <;> grind [Close]
-  · cases hs; constructor <;> simp <;> grind [Close]
+  · split at hs <;> simp at hs; subst hs; constructor <;> simp <;> grind [Close]
+  · split at hs <;> simp at hs; subst hs; constructor <;> simp <;> grind [Close]
+  · split at hs <;> simp at hs; subst hs; constructor <;> simp <;> grind [Close]
 
-theorem close_run {cfg : Cfg} (hg : cfg.guard = true) {as : List Action} {s s' : State} (h : Close s) (hi : Inv s)
+theorem close_run {cfg : Cfg} (hg : cfg.std = true) {as : List Action} {s s' : State} (h : Close s) (hi : Inv s)
     (hs : run cfg s as = some s') : Close s' := by
   induction as generalizing s with
   | nil => simp [run] at hs; subst hs; exact h
@@ -84,7 +101,7 @@ theorem close_run {cfg : Cfg} (hg : cfg.guard = true) {as : List Action} {s s' :
     · next s1 h1 => exact ih (close_step hg h hi h1) (inv_step hg hi h1) hs
     · simp at hs
 
-theorem reachable_close {cfg : Cfg} (hg : cfg.guard = true) {s : State} (h : Reachable cfg s) : Close s := by
+theorem reachable_close {cfg : Cfg} (hg : cfg.std = true) {s : State} (h : Reachable cfg s) : Close s := by
   obtain ⟨as, hs⟩ := h
   exact close_run hg close_init inv_init hs
 
